@@ -333,9 +333,41 @@ def cli_diff_sequence_case(ctx, rng, workdir, idx):
         shutil.rmtree(d_, ignore_errors=True)
 
 
+def integer_type_table(ctx):
+    """T1-style tie of Model.Diff.int_diff_fixed: for every integer type of at most 32 bits and for int64, the difference the
+    implementation reports for two one-row tables holding extreme / small values of the type is the model's value"""
+    from fieldcompare.tabular import Table, TabularFields
+    exprs, impls, metas = [], [], []
+    for dt in ("int8", "uint8", "int16", "uint16", "int32", "uint32", "int64"):
+        info = np.iinfo(dt)
+        vals = sorted({int(info.min), int(info.max), 0, 1, int(info.max) // 2, int(info.min) // 2 if info.min < 0 else 3})
+        for r in vals:
+            for s_ in vals:
+                if dt == "int64" and not (-2 ** 63 <= r - s_ < 2 ** 63):
+                    continue          # (a difference beyond 64 bits is outside the theorem's and the repair's range)
+                with warnings.catch_warnings():
+                    warnings.simplefilter("ignore")
+                    d = TabularFields(Table(num_rows=1), {"x": np.array([s_], dtype=dt)}).diff_to(
+                        TabularFields(Table(num_rows=1), {"x": np.array([r], dtype=dt)}))
+                impls.append(Fr(float(next(iter(d)).values[0])))
+                exprs.append(f"int_diff_fixed {lib.cz(r)} {lib.cz(s_)}")
+                metas.append((dt, r, s_))
+    vals_ = ctx.coq_eval(HEADER, exprs, name="c14int", shard=200)
+    bad = 0
+    for (dt, r, s_), im, mo in zip(metas, impls, vals_):
+        ctx.tie("T1 integer difference: implementation = Model.Diff.int_diff_fixed")
+        exact = abs(r - s_) < 2 ** 53          # (the tabular difference is stored as float64)
+        if exact and im != Fr(mo):
+            bad += 1
+            ctx.violation("E4" if Fr(mo) == r - s_ else "E2", f"{dt}: reference {r} minus source {s_} reported as {im}, model {mo}",
+                          {"integer_difference": {"dtype": dt, "reference": r, "source": s_}}, found_input=Fr(mo) == r - s_)
+    ctx.count("integer difference table rows", len(metas))
+
+
 def run(ctx):
     ctx.prove()
     q = ctx.tier == "quick"
+    integer_type_table(ctx)
     rng = ctx.rng
     n = 1200 if q else 30000
     cases = [restore_table(lib.json.loads(f.read_text())["case"]) for f in sorted((lib.VERIF / "corpus" / "C14").glob("found-*.json"))]
